@@ -135,6 +135,15 @@ class TriggerHandler:
         :param arg: the args
         :return: None to ignore other calls, or our self to continue
         """
+        # nothing that fails in here may ever be raised into the application code (python would also remove
+        # the trace function if we raised), so contain everything and keep tracing.
+        try:
+            return self.__trace_call(frame, event, arg)
+        except BaseException:
+            logging.exception("Cannot process trace event %s", event)
+            return self.trace_call
+
+    def __trace_call(self, frame: FrameType, event: str, arg):
         event, file, line, function = self.location_from_event(event, frame)
         trigger_context = TriggerContext(self._config, self._push_service, frame, event, arg)
 
